@@ -58,6 +58,10 @@ structure Sub where
   lossy : Bool
   /-- a non-nil read mask -/
   mask : Bool
+  /-- a subscriber of a `resource.Value` (value.go `Pull`): its events come from the Value's bus (`vsend`) and its lossy
+  stage is `minibus.DropExcess`, which keeps the latest POINTER — no copy, no merge — so even a lossy consumer
+  receives the bus's object -/
+  value : Bool
   /-- events the bus has handed to this listener and its pipeline has not taken yet (oldest first) -/
   inbox : List Nat
   /-- lossy: the merger's private copies in queue order, one per id (`messages` + `queue`) -/
@@ -76,10 +80,17 @@ structure ES where
 inductive Step
   /-- `Collection.Pull`: a new subscriber -/
   | sub (lossy mask : Bool)
-  /-- a write's `bus.Send(ctx, &CollectionChange{…})`: one new cell, its reference to every listener -/
+  /-- `Value.Pull`: a new subscriber of the Value -/
+  | vsub (lossy mask : Bool)
+  /-- a write's `bus.Send(ctx, &CollectionChange{…})`: one new cell, its reference to every listener of the Collection -/
   | send (e : Ev)
-  /-- backpressure subscriber: the Pull goroutine takes the next event, filters, hands it to the consumer -/
+  /-- `Value.Set`'s `bus.Send(ctx, &ValueChange{…})`: one new cell, its reference to every listener of the Value -/
+  | vsend (e : Ev)
+  /-- the Pull goroutine takes the next event, filters, hands it to the consumer (backpressure subscribers, and Value
+  subscribers of either kind: `DropExcess` passes pointers on) -/
   | forward (i : Nat)
+  /-- lossy Value subscriber: `DropExcess` discards the pending event when a newer one arrives -/
+  | dropIn (i : Nat)
   /-- lossy subscriber: the merger receives the next event (copy in, merge into the private entry of that id) -/
   | mergeIn (i : Nat)
   /-- lossy subscriber: the merger emits the front of its queue (`&change`: a new cell), the Pull goroutine filters -/
@@ -110,15 +121,28 @@ def mergePending (pending : List Ev) (nw : Ev) : List Ev :=
 
 def step (proj : Nat → Nat) (s : ES) : Step → ES
   | .sub l m =>
-    { s with subs := s.subs ++ [{ idx := s.subs.length, lossy := l, mask := m, inbox := [], pending := [], out := [] }] }
+    { s with subs := s.subs ++ [{ idx := s.subs.length, lossy := l, mask := m, value := false, inbox := [], pending := [], out := [] }] }
+  | .vsub l m =>
+    { s with subs := s.subs ++ [{ idx := s.subs.length, lossy := l, mask := m, value := true, inbox := [], pending := [], out := [] }] }
   | .send e =>
     { s with heap := pushCells s.heap s.next [e], owner := setOwner s.owner s.next 1 none, next := s.next + 1,
-             subs := s.subs.map fun sb => { sb with inbox := sb.inbox ++ [s.next] } }
+             subs := s.subs.map fun sb => if sb.value then sb else { sb with inbox := sb.inbox ++ [s.next] } }
+  | .vsend e =>
+    { s with heap := pushCells s.heap s.next [e], owner := setOwner s.owner s.next 1 none, next := s.next + 1,
+             subs := s.subs.map fun sb => if sb.value then { sb with inbox := sb.inbox ++ [s.next] } else sb }
+  | .dropIn i =>
+    match s.subs.find? (fun sb => sb.idx = i) with
+    | none => s
+    | some sb =>
+      if !(sb.lossy && sb.value) then s else
+      match sb.inbox with
+      | _ :: r2 :: rest => { s with subs := replaceSub s.subs sb fun x => { x with inbox := r2 :: rest } }
+      | _ => s
   | .forward i =>
     match s.subs.find? (fun sb => sb.idx = i) with
     | none => s
     | some sb =>
-      if sb.lossy then s else
+      if sb.lossy && !sb.value then s else
       match sb.inbox with
       | [] => s
       | r :: rest =>
@@ -132,7 +156,7 @@ def step (proj : Nat → Nat) (s : ES) : Step → ES
     match s.subs.find? (fun sb => sb.idx = i) with
     | none => s
     | some sb =>
-      if !sb.lossy then s else
+      if !(sb.lossy && !sb.value) then s else
       match sb.inbox with
       | [] => s
       | r :: rest =>
@@ -141,7 +165,7 @@ def step (proj : Nat → Nat) (s : ES) : Step → ES
     match s.subs.find? (fun sb => sb.idx = i) with
     | none => s
     | some sb =>
-      if !sb.lossy then s else
+      if !(sb.lossy && !sb.value) then s else
       match sb.pending with
       | [] => s
       | c :: rest =>
@@ -194,9 +218,11 @@ def showEv (e : Ev) : String := s!"{showKind e.kind},{e.id},{showTok e.old},{sho
 /-- the driver's read-mask projection on message tokens (the harness maps a masked message to 1000 + token) -/
 def drvProj (t : Nat) : Nat := 1000 + t
 
-/-- after a send: every backpressure subscriber forwards, every lossy one (stalled consumer) merges in -/
+/-- after a send: every backpressure subscriber forwards; a lossy Collection subscriber (stalled consumer) merges in;
+a lossy Value subscriber (stalled consumer) lets `DropExcess` drop the older pending pointer -/
 def settle (s : ES) : ES :=
-  s.subs.foldl (fun acc sb => step drvProj acc (if sb.lossy then .mergeIn sb.idx else .forward sb.idx)) s
+  s.subs.foldl (fun acc sb => step drvProj acc
+    (if !sb.lossy then .forward sb.idx else if sb.value then .dropIn sb.idx else .mergeIn sb.idx)) s
 
 def canon (seen : List Nat) (r : Nat) : List Nat × Nat :=
   match seen.idxOf? r with
@@ -220,6 +246,17 @@ def handleEv (d : DrvEv) (toks : List String) : DrvEv × String :=
     match parseBool? l, parseBool? m with
     | some l, some m => ({ d with s := step drvProj d.s (.sub l m) }, "ok")
     | _, _ => (d, "!bad-op")
+  | ["vsub", l, m] =>
+    match parseBool? l, parseBool? m with
+    | some l, some m => ({ d with s := step drvProj d.s (.vsub l m) }, "ok")
+    | _, _ => (d, "!bad-op")
+  | ["vsend", n] =>
+    match n.toNat? with
+    | some n =>
+      let s1 := settle (step drvProj d.s (.vsend { kind := .update, id := 0, old := none, new := some n, lastSeed := false }))
+      let (d2, outs) := lastOuts { d with s := s1 }
+      (d2, "|".intercalate ("ok" :: outs))
+    | none => (d, "!bad-op")
   | ["send", k, id, o, n] =>
     match parseKind? k, id.toNat?, parseTok? o, parseTok? n with
     | some k, some id, some o, some n =>
